@@ -62,7 +62,7 @@ def run_step_part(ctx, name, jobs, common, prefixes, exhaustive_family=None, nsh
             what = f"{name}: {','.join(mine)} on [{sst(rec['st'])}] action {b['a']}"
             if act is not None:
                 what += ' -> ' + (act['outcome'] if act['outcome'] != 'ok' else ('unchanged' if act.get('same') else '; '.join(sst(s) for s in act['support'][:3])))
-            rp = {'kind': 'step', 'record': {k: rec[k] for k in ('space', 'comps', 'rew', 'term', 'st', 'fam', 'fi', 'fsize', 'k')},
+            rp = {'kind': 'step', 'record': {k: rec[k] for k in ('space', 'comps', 'rew', 'term', 'st', 'fam', 'fi', 'fsize', 'k', 'chain') if k in rec},
                   'action': b['a'], 'clauses': mine, 'observed': act, 'via': common.get('via', 'gridworld')}
             ctx.violation(what, rp, key=key_fn(rec, b, mine) if key_fn else None)
             n_viol += 1
@@ -87,6 +87,48 @@ def run_step_part(ctx, name, jobs, common, prefixes, exhaustive_family=None, nsh
     return n_viol
 
 
+def live_chain_part(ctx, prefixes, n, seed_offset=0, length=6):
+    """walks on live state objects over mixed small worlds (boxes that release obstacles / keys / telepods, doors, keys,
+    obstacles, telepod pairs): every state of a walk is questioned as the object the previous call returned, so whatever
+    the code memoised on it (and fast_copy carried along) is in play; every record is judged by the same rules"""
+    rng = random.Random(ctx.seed * 977 + seed_offset)
+    O = steps.O
+    jobs = []
+    for i in range(n):
+        h, w = rng.choice([(3, 3), (3, 4), (4, 4), (4, 5), (5, 5)])
+        pool = [O('Box', 0, 'NONE', O('MovingObstacle')), O('Box', 0, 'NONE', O('Key', 0, 'RED')), O('Box', 0, 'NONE', O('Telepod', 0, 'RED')),
+                O('MovingObstacle'), O('Door', 1, 'RED'), O('Door', 2, 'RED'), O('Key', 0, 'RED'), O('Wall'), O('Telepod', 0, 'RED'), O('Telepod', 0, 'RED')]
+        grid = [[steps.FLOOR for _ in range(w)] for _ in range(h)]
+        cells = [(y, x) for y in range(h) for x in range(w)]
+        rng.shuffle(cells)
+        objs = rng.sample(pool, rng.randint(2, 5))
+        for (y, x), o in zip(cells, objs):
+            grid[y][x] = o
+        pos, ori = list(cells[len(objs)]), rng.choice(steps.ORIS)
+        # half of the walks start in front of an actuable / holdable object
+        targets = [(y, x) for (y, x), o in zip(cells, objs) if o['t'] in ('Box', 'Door', 'Key')]
+        if targets and rng.random() < 0.6:
+            ty, tx = rng.choice(targets)
+            for o_, (dy, dx) in zip(['F', 'R', 'B', 'L'], [(-1, 0), (0, 1), (1, 0), (0, -1)]):
+                ay, ax = ty - dy, tx - dx
+                if 0 <= ay < h and 0 <= ax < w and grid[ay][ax]['t'] == 'Floor':
+                    pos, ori = [ay, ax], o_
+                    break
+        acts = []
+        for t in range(length):
+            u = rng.random()
+            acts.append('ACTUATE' if u < 0.3 else 'PICK_N_DROP' if u < 0.42 else rng.choice(['TURN_LEFT', 'TURN_RIGHT', 'MOVE_FORWARD', 'MOVE_BACKWARD', 'MOVE_LEFT', 'MOVE_RIGHT']))
+        if rng.random() < 0.5:
+            acts[:3] = [rng.choice(['TURN_LEFT', 'TURN_RIGHT']), 'ACTUATE', 'ACTUATE'] if rng.random() < 0.5 else ['PICK_N_DROP', 'ACTUATE', rng.choice(['TURN_LEFT', 'MOVE_BACKWARD'])]
+            if acts[0].startswith('TURN'):
+                # turn away and back so that the dynamics has run once before the object in front changes
+                acts[:4] = [acts[0], 'TURN_RIGHT' if acts[0] == 'TURN_LEFT' else 'TURN_LEFT', 'ACTUATE', rng.choice(['TURN_LEFT', 'MOVE_BACKWARD', 'ACTUATE'])]
+        st = {'grid': grid, 'pos': pos, 'ori': ori, 'item': rng.choice(steps.HELD[:2])}
+        jobs.append(dict(rec_id=i, st_json=st, walk={'actions': acts, 'seeds': [rng.randrange(2 ** 31) for _ in acts]},
+                         space=steps.family_space(h, w)))
+    return run_step_part(ctx, 'live_walks', jobs, dict(comps=steps.COMPOSITIONS['all'], via='direct', enum_limit=600), prefixes)
+
+
 def replay_step(ctx, path):
     """re-run a stored step violation through the current code and TLC"""
     with open(path) as f:
@@ -95,6 +137,9 @@ def replay_step(ctx, path):
     rec = rp['record']
     job = dict(rec_id=0, st_json=rec['st'], fam=rec.get('fam', ''), fi=rec.get('fi', -1),
                fsize=rec.get('fsize', -1), k=rec.get('k', -1))
+    if rec.get('chain'):   # a state reached on live objects: walk there again
+        ch = rec['chain']
+        job = dict(rec_id=0, st_json=ch['start'], walk={'actions': ch['actions'] + [rp['action']], 'seeds': ch['seeds'] + [0]})
     common = dict(comps=rec['comps'], space=rec['space'], rew=rec['rew'][0] if rec['rew'] else None,
                   term=rec['term'][0] if rec['term'] else None, actions=[rp['action']], via=rp.get('via', 'gridworld'))
     prefixes = sorted(set(c.split('.')[0] for c in rp['clauses']))
